@@ -177,6 +177,8 @@ class Plain(object):
 
 _PLAIN = [Plain(0), Plain(1), Plain(2)]
 _k('rv_obj', 'rec')(lambda r: _PLAIN[r.v % 3])          # the very same object for equal predicate values; a copy would differ
+_k('rv_dt64ns', 'rec')(lambda r: _np.datetime64(r.v % 3, 'ns'))          # numpy's default resolution: .item() of it is an int
+_k('rv_fset', 'rec')(lambda r: frozenset([r.v % 3, 'x']) if r.v % 4 else frozenset())     # a set-valued key is a key value like any other
 # a text key and the int that equals its hash: different keys (a lookup structure that stores hash(key) for text would merge them)
 _k('rv_strhash', 'rec')(lambda r: ['ab', hash('ab'), b'cd', hash(b'cd'), 'ab'][r.v % 5])
 # an impure key mapper (round-robin sharding: the answer does not depend on the item).  The builder creates a fresh
@@ -254,6 +256,7 @@ ACCS = {
     'dictcount': (_dictcount, 'int', 'dict', True),
     'dq3': (_dq, 'any', 'deque', True),
     'pairsum': (lambda a, i: (a[0] + i, a[1] + 1), 'int', 'tup2', False),
+    'vecadd': (lambda a, i: a + _np.array([i, 1]), 'int', 'ndarr', False),       # the accumulator is a numpy array (a comparison with it is element-wise)
     'tupcat': (lambda a, i: a + (i,), 'any', 'tup', False),
     # accumulators over records (C13: the fault plan identifies calls by the record's party and ordinal)
     'r_sum': (lambda a, r: a + r.v, 'rec', 'int', False),
@@ -283,6 +286,8 @@ SEEDS = {
     'd_fac': (lambda: dict, 'dict', True),
     'dq_fac': (lambda: _mk_deque, 'deque', True),
     't00': (lambda: (0, 0), 'tup2', False),
+    'nz2': (lambda: _np.zeros(2), 'ndarr', False),
+    'nz2_fac': (lambda: _mk_zeros2, 'ndarr', True),
     't_empty': (lambda: (), 'tup', False),
     'obj_val': (lambda: AccObj(), 'accobj', False),          # value seed: rxsci must deep copy it per key although it is hashable
     'obj_fac': (lambda: AccObj, 'accobj', True),
@@ -290,6 +295,10 @@ SEEDS = {
     'fac5': (lambda: (lambda: 5), 'optfac', True),
     'fac_none': (lambda: (lambda: None), 'optfac', True),
 }
+
+
+def _mk_zeros2():
+    return _np.zeros(2)
 
 
 def fresh_seed(name):
@@ -337,7 +346,7 @@ def terms_for(state_type):
 
 
 # what item type a scan state becomes once emitted
-STATE_ITEM_TYPE = {'int': 'int', 'float': 'float', 'bool': 'any', 'list': 'list',
+STATE_ITEM_TYPE = {'ndarr': 'npfloat', 'int': 'int', 'float': 'float', 'bool': 'any', 'list': 'list',
                    'dict': 'any', 'deque': 'any', 'tup': 'any', 'tup2': 'any', 'optfac': 'optint', 'accobj': 'any', 'tupobj': 'any'}
 
 
